@@ -73,7 +73,28 @@ CREATE_KW = {
 }
 
 
-def build_fixture(path):
+class _SeededUuid:
+    """uuid.uuid4 stand-in while the fixture is built: the uids (hence the locators stored in replay files) are the
+    same in every run."""
+
+    def __init__(self, seed):
+        import random
+        self.rng = random.Random(seed)
+
+    def __call__(self):
+        return uuid.UUID(int=self.rng.getrandbits(128), version=4)
+
+
+def build_fixture(path, seed=10):
+    old = uuid.uuid4
+    uuid.uuid4 = _SeededUuid(seed)
+    try:
+        return _build_fixture(path)
+    finally:
+        uuid.uuid4 = old
+
+
+def _build_fixture(path):
     """One file with: nested groups (container, SimPEG with options, UIJson, GIFtools, no-type, a drillhole group
     with two concatenated holes, depth + interval + text data and two property groups), objects of 20 classes
     (incl. a DC survey pair, an airborne TEM pair with a property group in its metadata, a tipper pair), data of
@@ -266,6 +287,8 @@ def _richness(obj):
         score -= 1
     if getattr(obj, "_color_map", None) is not None or getattr(obj, "_value_map", None) is not None:
         score -= 1
+    if _kind_of(obj) == "pgroup":
+        score -= len(getattr(obj.parent, "children", None) or [])
     return score
 
 
@@ -354,7 +377,13 @@ def _variants(cur):
         if cur.size == 0:
             return [("same", cur.copy())]
         if cur.dtype.names is not None:
-            out.append(("rev", cur[::-1].copy()))
+            if cur.ndim == 0 or cur.shape[0] < 2:
+                new = cur.copy()
+                first = cur.dtype.names[0]
+                new[first] = new[first] + 1
+                out.append(("inc0", new))
+            else:
+                out.append(("rev", cur[::-1].copy()))
         elif cur.dtype.kind == "f":
             inc = cur.copy()
             inc.flat[0] = (0.0 if inc.flat[0] != inc.flat[0] else inc.flat[0]) + 1.0
@@ -463,6 +492,19 @@ def _any(ws, kind):
     return pool[0]
 
 
+_COUNTER = [0]
+
+
+def _fresh(prefix, suffix=""):
+    _COUNTER[0] += 1
+    return os.path.join(os.getcwd(), f"{prefix}_{os.getpid()}_{_COUNTER[0]}{suffix}")
+
+
+def _named(ws, name):
+    got = [e for e in ws.objects + ws.groups if e.name == name]
+    return got[0] if got else None
+
+
 def _small_file():
     path = os.path.join(os.getcwd(), "c10_payload.txt")
     if not os.path.exists(path):
@@ -488,13 +530,53 @@ def method_candidates(ws, holder, name):
             kw = CREATE_KW.get(type(holder).__name__.replace("Concatenated", "").replace("Concatenator", ""), dict)()
             c.append(("min", (ws,), dict(kw, name="c10_new")))
         elif hk == "ws":
-            c.append(("file", (os.path.join(os.getcwd(), f"c10_created_{uuid.uuid4().hex[:8]}.geoh5"),), {}))
+            c.append(("file", (_fresh("c10_created", ".geoh5"),), {}))
         elif hk == "data":
             c.append(("min", (ws,), {"name": "c10_new", "parent": holder.parent, "values": getattr(holder, "values", None),
                                      "association": getattr(holder, "association", None),
                                      "entity_type": holder.entity_type}))
         elif hk == "type":
             c.append(("min", (ws,), {"name": "c10_new_type"}))
+    elif name == "fix_up_name":
+        c.append(("slash", ("a/b",), {}))
+    elif name == "find_or_create_type":
+        c.append(("ws", (ws,), {}))
+    elif name in ("format_length", "format_type", "format_values"):
+        vals = getattr(holder, "values", None)
+        if vals is not None:
+            c.append(("cur", (vals,), {}))
+    elif name == "format_survey_values":
+        c.append(("cur", (np.array([[0.0, 0.0, -90.0], [5.0, 0.0, -90.0]]),), {}))
+    elif name == "find" and hk == "type":
+        c.append(("self", (ws, holder.uid), {}))
+    elif name == "find_or_create" and hk == "type":
+        kw = {"primitive_type": "FLOAT"} if type(holder).__name__ == "DataType" else {}
+        c.append(("new", (ws,), dict(kw, name="c10_type", uid=uuid.UUID(int=10))))
+    elif name in ("for_x_data", "for_y_data", "for_z_data"):
+        c.append(("ws", (ws,), {}))
+    elif name == "validate_data_type":
+        c.append(("float", (ws, {"name": "c10_vd", "values": np.array([1.0, 2.0])}), {}))
+    elif name == "convert_kwargs":
+        c.append(("id", ({"ID": str(holder.uid), "Name": "x"},), {}))
+    elif name == "create_custom":
+        c.append(("ws", (ws,), {"name": "c10_custom"}))
+    elif name == "set_metadata":
+        c.append(("pitch", ("pitch", 1.5), {}))
+    elif name == "georeference":
+        c.append(("sq", (np.array([[0, 0], [8, 0], [8, 8]]),
+                         np.array([[0.0, 0.0, 0.0], [8.0, 0.0, 0.0], [8.0, 8.0, 0.0]])), {}))
+    elif name == "save_as" and hk == "object":
+        c.append(("png", (os.path.basename(_fresh("c10_img", ".png")), os.getcwd()), {}))
+    elif name == "fetch_array_attribute":
+        c.append(("cells", (_named(ws, "cur"), "cells"), {}))
+    elif name == "fetch_concatenated_attributes":
+        grp = [g for g in ws.groups if type(g).__name__.startswith("Concatenator")]
+        if grp:
+            c.append(("grp", (grp[0],), {}))
+    elif name == "fetch_file_object":
+        fd = sorted((d for d in ws.data if type(d).__name__ == "FilenameData"), key=lambda d: d.name)
+        if fd:
+            c.append(("img", (fd[0].uid, fd[0].values), {}))
     elif name == "add_comment":
         c.append(("txt", ("a new comment",), {"author": "c10"}))
     elif name == "add_file":
@@ -611,7 +693,7 @@ def method_candidates(ws, holder, name):
     elif name == "add_ui_json":
         c.append(("n", (), {}))
     elif name == "save_file":
-        c.append(("dir", (), {"path": os.getcwd(), "name": f"c10_saved_{uuid.uuid4().hex[:6]}"}))
+        c.append(("dir", (), {"path": os.getcwd(), "name": os.path.basename(_fresh("c10_saved"))}))
     elif name == "validate_data_association":
         c.append(("obj", ({"association": "OBJECT", "values": "x"},), {}))
     elif name == "add_vertices":
@@ -706,9 +788,34 @@ def invoke(ws, holder, ep, tag):
 
 
 # ----------------------------------------------------------------------------------------- classification in r+
+def _release(ws):
+    """Drop the HDF5 handle of a scratch workspace without Workspace.close (no final save, no repack)."""
+    try:
+        handle = ws.geoh5
+    except Exception:  # pylint: disable=broad-except
+        return
+    try:
+        handle.close()
+    except Exception:  # pylint: disable=broad-except
+        pass
+
+
+def _changed(work, sha0, digest0):
+    """Did the CONTENT of the scratch copy change?  Equal bytes => equal content; otherwise the raw digest decides
+    (h5py may move bytes without changing the content)."""
+    if sha_file(work) == sha0:
+        return False
+    return content_digest(work) != digest0
+
+
+def _x(ep, note):
+    return {"id": ep["id"], "cls": "X", "tag": None, "rplus_out": None, "note": note}
+
+
 def classify(item):
-    """item = (fixture path, pristine content digest, entry point). Classify by the effect in mode r+ on scratch copies.
-    -> dict(id, cls in {"W","G","GW","N","X"}, tag, rplus_out, note)."""
+    """item = (fixture path, pristine content digest, entry point). Classify by the effect in mode r+ on scratch copies:
+    candidates are tried in order, each on a fresh copy, until one changes the content of the file.
+    -> dict(id, cls in {"W","G","N","X"}, tag, rplus_out, note)."""
     from geoh5py import Workspace
     from .pool import scratch
     fixture, digest0, ep = item
@@ -723,51 +830,64 @@ def classify(item):
         try:
             holder = resolve(ws, ep["loc"])
             if holder is None:
-                return {"id": ep["id"], "cls": "X", "tag": None, "rplus_out": None, "note": "holder not found"}
+                return _x(ep, "holder not found")
             if tags is None:
                 try:
                     tags = [t for t, _ in candidates(ws, holder, ep)]
                 except Exception as exc:  # pylint: disable=broad-except
-                    return {"id": ep["id"], "cls": "X", "tag": None, "rplus_out": None,
-                            "note": f"arguments: {type(exc).__name__}: {str(exc)[:80]}"}
+                    return _x(ep, f"arguments: {type(exc).__name__}: {str(exc)[:80]}")
                 if not tags:
-                    return {"id": ep["id"], "cls": "X", "tag": None, "rplus_out": None,
-                            "note": "no generic argument known"}
+                    return _x(ep, "no generic argument known")
             tag = tags[idx]
             try:
                 out = invoke(ws, holder, ep, tag)
             except NotExercisable as exc:
                 out = None
                 results.append((tag, None, False, str(exc)))
-            if out is not None:
-                changed = False
-                handle = ws._geoh5  # pylint: disable=protected-access
-                if handle and str(getattr(ws, "h5file", None)) == work:
-                    handle.flush()
-                    if sha_file(work) != sha0:
-                        changed = content_digest(handle) != digest0
-                else:  # the call closed or re-targeted the workspace
-                    changed = content_digest(work) != digest0
-                results.append((tag, out, changed, ""))
         finally:
-            try:
-                ws.close()
-            except Exception:  # pylint: disable=broad-except
-                pass
-        last = results[-1]
-        if last[2]:  # the content changed: mutating, with this recipe
+            _release(ws)
+        if out is not None:
+            results.append((tag, out, _changed(work, sha0, digest0), ""))
+        if results[-1][2]:  # the content changed: mutating, with this recipe
             break
         idx += 1
         if idx >= len(tags) or ep["kind"] == "get":
             break
     for tag, out, changed, _ in results:
         if changed:
-            cls = "GW" if ep["kind"] == "get" else "W"
-            return {"id": ep["id"], "cls": cls, "tag": tag, "rplus_out": out, "note": ""}
+            return {"id": ep["id"], "cls": "W", "tag": tag, "rplus_out": out, "note": ""}
     done = [r for r in results if r[1] is not None]
     if not done:
-        return {"id": ep["id"], "cls": "X", "tag": None, "rplus_out": None, "note": results[-1][3]}
+        return _x(ep, results[-1][3])
     oks = [r for r in done if r[1] == "ok"]
     pick = oks[0] if oks else done[0]
     cls = "G" if (ep["kind"] == "get" and pick[1] == "ok") else "N"
     return {"id": ep["id"], "cls": cls, "tag": pick[0], "rplus_out": pick[1], "note": ""}
+
+
+def classify_getters(item):
+    """item = (fixture, digest0, [getter entry points of ONE holder]).  All getters of the holder are read in one r+
+    session; when the bytes are unchanged afterwards none of them wrote (the usual case) - otherwise every getter
+    is classified on its own fresh copy."""
+    from geoh5py import Workspace
+    from .pool import scratch
+    fixture, digest0, eps = item
+    if not eps:
+        return []
+    work = os.path.join(scratch(), "c10_classify.geoh5")
+    shutil.copyfile(fixture, work)
+    sha0 = sha_file(work)
+    ws = Workspace(work, mode="r+")
+    outs = []
+    try:
+        holder = resolve(ws, eps[0]["loc"])
+        if holder is None:
+            return [_x(ep, "holder not found") for ep in eps]
+        for ep in eps:
+            outs.append(invoke(ws, holder, ep, "get"))
+    finally:
+        _release(ws)
+    if _changed(work, sha0, digest0):
+        return [classify((fixture, digest0, ep)) for ep in eps]
+    return [{"id": ep["id"], "cls": "G" if out == "ok" else "N", "tag": "get", "rplus_out": out, "note": ""}
+            for ep, out in zip(eps, outs)]
